@@ -11,6 +11,22 @@ theorem genK_eq : Sha256.K = Spec.K := by decide +kernel
 theorem genH0_eq : Sha256.H0 = Spec.H0 := by decide +kernel
 theorem genCount0_eq : Sha256.count0 = 0 := by decide +kernel
 
+/-! ### the checked write -/
+
+theorem wr_eq_set {α : Type} (a : List α) (i : Nat) (v : α) (h : i < a.length) : Sha256.wr a i v = a.set i v := by
+  simp [Sha256.wr, h]
+
+theorem wr_length {α : Type} (a : List α) (i : Nat) (v : α) (h : i < a.length) : (Sha256.wr a i v).length = a.length := by
+  rw [wr_eq_set a i v h, List.length_set]
+
+theorem wr_mid {α : Type} (xs : List α) (y b : α) (ys : List α) :
+    Sha256.wr (xs ++ y :: ys) xs.length b = (xs ++ [b]) ++ ys := by
+  rw [wr_eq_set _ _ _ (by simp), List.set_append_right _ _ (Nat.le_refl _)]
+  simp
+
+theorem wr_cons_zero {α : Type} (x b : α) (xs : List α) : Sha256.wr (x :: xs) 0 b = b :: xs := by
+  simp [Sha256.wr]
+
 theorem beWord_eq (b0 b1 b2 b3 : UInt8) :
     (b0.toUInt32 <<< 24) + (b1.toUInt32 <<< 16) + (b2.toUInt32 <<< 8) + b3.toUInt32 = Spec.beWord b0 b1 b2 b3 := by
   apply UInt32.toNat_inj.mp
